@@ -62,16 +62,16 @@ func init() {
 }
 
 type wsAnchors struct {
-	p                                                            *Prog
-	state, pendingFrames, role, maxMsg                           *types.Var
-	stHandshake, stActive, stByUs, stByPeer, stAcked, stTerm     int64
-	prepareClose, prepareWrite, handleFrame, handleControl       *ssa.Function
-	handleData, verifyFrame, reset, canRead, flush, asyncFlush   *ssa.Function
-	nextFrame, asyncNextFrame, NextFrame, AsyncNextFrame         *ssa.Function
-	encodeCloseCode, encodeClosePayload, validCloseCode          *ssa.Function
-	opcodeM, payloadM, isFIN, payloadLen, isMasked               *ssa.Function
-	setPong, setPayload, setClose                                *ssa.Function
-	stateNames                                                   map[int64]string
+	p                                                          *Prog
+	state, pendingFrames, role, maxMsg                         *types.Var
+	stHandshake, stActive, stByUs, stByPeer, stAcked, stTerm   int64
+	prepareClose, prepareWrite, handleFrame, handleControl     *ssa.Function
+	handleData, verifyFrame, reset, canRead, flush, asyncFlush *ssa.Function
+	nextFrame, asyncNextFrame, NextFrame, AsyncNextFrame       *ssa.Function
+	encodeCloseCode, encodeClosePayload, validCloseCode        *ssa.Function
+	opcodeM, payloadM, isFIN, payloadLen, isMasked             *ssa.Function
+	setPong, setPayload, setClose                              *ssa.Function
+	stateNames                                                 map[int64]string
 }
 
 func wsAnchor(p *Prog) *wsAnchors {
@@ -156,11 +156,11 @@ func runC08(c *Ctx) {
 	// ------------------------------------------------------------------------------------------------ R1
 	c.rule("C08-R1", "static transition relation of (*Stream).state is a subset of the RFC 6455 table and contains the transitions of the closing handshake", 16)
 	allowedFrom := map[int64]map[int64]bool{
-		w.stActive:   {w.stHandshake: true},
-		w.stByUs:     {w.stActive: true},
-		w.stByPeer:   {w.stActive: true},
-		w.stAcked:    {w.stByUs: true},
-		w.stTerm:     {w.stHandshake: true, w.stActive: true, w.stByUs: true, w.stByPeer: true, w.stAcked: true, w.stTerm: true},
+		w.stActive: {w.stHandshake: true},
+		w.stByUs:   {w.stActive: true},
+		w.stByPeer: {w.stActive: true},
+		w.stAcked:  {w.stByUs: true},
+		w.stTerm:   {w.stHandshake: true, w.stActive: true, w.stByUs: true, w.stByPeer: true, w.stAcked: true, w.stTerm: true},
 	}
 	present := map[[2]int64]bool{}
 	for _, fn := range fns {
